@@ -83,6 +83,87 @@ def crc32_wire(data: bytes) -> bytes:
     return crc32_value(data).to_bytes(4, "little")
 
 
+# ---------------------------------------------------------------------------------------------- CRC-9 (B.3.10)
+
+CRC9_POLY = 0x059  # x^9+x^6+x^4+x^3+1 (leading term implied)
+CRC9_MASK = {"1/2": 0x0F0, "3/4": 0x1FF, "1": 0x10F}  # B.3.12 data type CRC masks of the three data continuation types
+
+
+def crc9_field(rate: str, dbsn: int, octets_after_crc9: bytes) -> int:
+    """CRC-9 field of a confirmed block: remainder over the block's octets that follow the serial number / CRC-9 field (for a
+    last block this includes the four CRC-32 octets) followed by the 7-bit DBSN; inverted, then masked."""
+    bits = []
+    for o in octets_after_crc9:
+        bits.extend(gf2.int_to_bits(o, 8))
+    bits.extend(gf2.int_to_bits(dbsn, 7))
+    return (gf2.crc_rem(bits, 9, CRC9_POLY) ^ 0x1FF) ^ CRC9_MASK[rate]
+
+
+# ---------------------------------------------------------------------------------------------- forcing check values (linearity)
+
+
+def gf2_solve(columns: List[int], target: int):
+    """Coefficients x_i in {0,1} with XOR of columns[i] over x_i = 1 equal to target, or None (Gaussian elimination)."""
+    basis = {}  # pivot bit -> (vector, combination mask)
+    for i, v in enumerate(columns):
+        combo = 1 << i
+        while v:
+            piv = v.bit_length() - 1
+            if piv not in basis:
+                basis[piv] = (v, combo)
+                break
+            bv, bc = basis[piv]
+            v ^= bv
+            combo ^= bc
+    combo = 0
+    v = target
+    while v:
+        piv = v.bit_length() - 1
+        if piv not in basis:
+            return None
+        bv, bc = basis[piv]
+        v ^= bv
+        combo ^= bc
+    return [(combo >> i) & 1 for i in range(len(columns))]
+
+
+def _force(data: bytes, free_octets: List[int], target: int, value) -> bytes:
+    """Set the octets at ``free_octets`` so that value(data) == target; ``value`` must be GF(2)-affine in the message bits."""
+    base = bytearray(data)
+    for i in free_octets:
+        base[i] = 0
+    v0 = value(bytes(base))
+    zero = value(bytes(len(base)))
+    cols = []
+    for i in free_octets:
+        for b in range(8):
+            unit = bytearray(len(base))
+            unit[i] = 0x80 >> b
+            cols.append(value(bytes(unit)) ^ zero)
+    x = gf2_solve(cols, target ^ v0)
+    if x is None:
+        raise ValueError("target not reachable with these free octets")
+    for n, i in enumerate(free_octets):
+        o = 0
+        for b in range(8):
+            o |= x[n * 8 + b] * (0x80 >> b)
+        base[i] = o
+    out = bytes(base)
+    assert value(out) == target
+    return out
+
+
+def force_crc32(padded: bytes, free_octets: List[int], target: int) -> bytes:
+    """``padded`` (payload + pad octets) with the octets at ``free_octets`` chosen so that crc32_value(result) == target."""
+    return _force(padded, free_octets, target, crc32_value)
+
+
+def force_crc9_field(rate: str, dbsn: int, block_octets: bytes, free_octets: List[int], target_field: int) -> bytes:
+    """user octets of an intermediate confirmed block with the octets at ``free_octets`` chosen so that the block's CRC-9
+    field is ``target_field``."""
+    return _force(block_octets, free_octets, target_field, lambda d: crc9_field(rate, dbsn, d))
+
+
 # ---------------------------------------------------------------------------------------------- preambles
 
 
